@@ -60,7 +60,7 @@ static void workload(struct tctx* c) {
     ref_encode_src(t, &enc);
     if (enc.n > 4000) { rn_free(t); continue; }
     if (vh_below(&r, 2)) {
-      STAMP(F_BUILD, it = walk_build_from_ref(t));
+      if (vh_below(&r, 2)) { STAMP(F_BUILD, it = walk_build_from_ref(t)); } else { STAMP(F_BUILD, it = ser_build_variant(t, &r)); } /* all builders, new+set, set_handle, re-tagging */
     } else {
       struct cbor_load_result lr;
       uint8_t* ex = vh_exact(enc.p, enc.n);
